@@ -531,7 +531,12 @@ class Interp:
                 ctx.assume(c)
             pre = {k: (list(v) if isinstance(v, list) else v) for k, v in frame.locals.items()}
             snap = {}
-            for v in list(frame.locals.values()) + [elem] + (list(elem) if isinstance(elem, (list, tuple)) else []):
+            cands = list(frame.locals.values()) + [elem] + (list(elem) if isinstance(elem, (list, tuple)) else [])
+            for o in list(cands):
+                dd = getattr(o, "__dict__", None)
+                if isinstance(dd, dict) and not isinstance(o, (MDict, type)):
+                    cands.extend(x for x in dd.values() if isinstance(x, MDict))
+            for v in cands:
                 if isinstance(v, MDict) and id(v) not in snap:
                     snap[id(v)] = [list(e) for e in v.entries]
                     for _, vv in v.entries:
